@@ -33,6 +33,7 @@ type c07Plan struct {
 	SnapAll  bool
 	Extra    []verifgen.Entry
 	SnapAfterRestart bool
+	RestoreInChild   bool
 }
 
 // TestVerifC07Child applies the plan's entries through the real FSM with the
@@ -71,6 +72,12 @@ func TestVerifC07Child(t *testing.T) {
 			_, persisted, err := f.snapshot(e.Id, cstart, -1)
 			fmt.Fprintf(w, "snapshot %v %v\n", persisted, err)
 			w.Flush()
+			if plan.RestoreInChild && persisted {
+				// the same process restores the snapshot (InstallSnapshot on a lagging node) and crashes later
+				_, rerr := f.restoreLatest()
+				fmt.Fprintf(w, "restore %v\n", rerr)
+				w.Flush()
+			}
 		}
 	}
 	fmt.Fprintf(w, "survived\n")
@@ -128,11 +135,12 @@ func c07MakePlan(seed int64) (*c07Plan, bool) {
 	plan.Entries[ci].Data = []string{"PANIC", "panic", "PANIC :now", "PANIC a b c"}[rng.Intn(4)]
 	plan.Entries[ci].Cmd = "PANIC"
 	plan.Extra = append(plan.Extra, entries[ci+1:]...)
-	switch rng.Intn(4) {
+	switch rng.Intn(3) {
 	case 0:
 		if ci > 2 {
 			plan.SnapAt = rng.Intn(ci-1) + 1
 			plan.SnapAll = rng.Intn(2) == 0
+			plan.RestoreInChild = rng.Intn(2) == 0
 		}
 	case 1:
 		plan.SnapAfterRestart = true
@@ -392,12 +400,13 @@ func c07Run(rep *verifrep.R, dir string, plan *c07Plan, sample bool) {
 	if stillThere && !laterFromSame {
 		if got := ircServer.LastPostMessage(robust.Id{Id: crash.Session}); got != crash.ClientMessageId {
 			viol("marker-not-advanced", fmt.Sprintf("LastPostMessage(%d) = %d after the replay, the crashing entry carried %d", crash.Session, got, crash.ClientMessageId))
+			rep.Violation("C10", "marker-not-set-by-message-of-death", fmt.Sprintf("after a real crash, restart and replay the session's marker is %d, the crashing entry carried %d: the bridge's retry would be applied (and crash) again", got, crash.ClientMessageId), map[string]interface{}{"seed": plan.Seed})
 		}
 		rep.Obs("marker-checked", 1)
 	}
 	snap := "none"
 	if plan.SnapAt >= 0 {
-		snap = fmt.Sprintf("before-crash(all=%v)", plan.SnapAll)
+		snap = fmt.Sprintf("before-crash(all=%v,restored-in-process=%v)", plan.SnapAll, plan.RestoreInChild)
 	} else if plan.SnapAfterRestart {
 		snap = "after-restart"
 	}
